@@ -37,15 +37,22 @@ package governance
 //@ ghost func wfPS(ps *ProposalStore) bool = ps != nil && str(ps.prefixActive) != str(ps.prefixPassed) && str(ps.prefixActive) != str(ps.prefixFailed) && str(ps.prefixActive) != str(ps.prefixFinalized) && str(ps.prefixActive) != str(ps.prefixFinalizeFailed) && str(ps.prefixPassed) != str(ps.prefixFailed) && str(ps.prefixPassed) != str(ps.prefixFinalized) && str(ps.prefixPassed) != str(ps.prefixFinalizeFailed) && str(ps.prefixFailed) != str(ps.prefixFinalized) && str(ps.prefixFailed) != str(ps.prefixFinalizeFailed) && str(ps.prefixFinalized) != str(ps.prefixFinalizeFailed)
 
 // typed view of the State prefix (assumed: rests on C09's State contracts and on T-SER round-tripping of Proposal)
-//@ assume func (*ProposalStore).Get
+// Get / Set are VERIFIED against the State (`claims`): a proposal record lives under the CURRENT stage prefix ps.prefix ++ its
+// id; Set leaves exactly the serialised proposal there on success and writes nothing else, nothing on failure; Get decodes
+// what is visible there. TRUSTED per clause: the typed stage ledgers pHas / pRec / pGoal.
+//@ ghost func propRawKey(ps *ProposalStore, id ProposalID) string = str(ps.prefix) + id
+//@ func (*ProposalStore).Get
+//@   assumes ps != nil && ps.state != nil && wfState(ps.state)
 //@   modifies nothing
+//@   trustframe
 // pHas is by definition "a decodable record is stored": Get succeeds exactly then (State.Get itself never fails)
-//@   ensures (err == nil) == propHas(ps, ps.prefix, proposalID)
-//@   ensures err == nil ==> result0 != nil && fresh(result0) && propHas(ps, ps.prefix, proposalID) && *result0 == propRec(ps, ps.prefix, proposalID)
-//@   ensures err == nil ==> result0.FundingGoal != nil && fresh(result0.FundingGoal) && big(result0.FundingGoal) == propGoal(ps, ps.prefix, proposalID)
+//@   trusts (err == nil) == propHas(ps, ps.prefix, proposalID)
+//@   trusts err == nil ==> result0 != nil && fresh(result0) && propHas(ps, ps.prefix, proposalID) && *result0 == propRec(ps, ps.prefix, proposalID)
+//@   trusts err == nil ==> result0.FundingGoal != nil && fresh(result0.FundingGoal) && big(result0.FundingGoal) == propGoal(ps, ps.prefix, proposalID)
 // Set is the only writer and keys every record on its own ProposalID
-//@   ensures err == nil ==> result0.ProposalID == proposalID
-//@   ensures err != nil ==> result0 == nil
+//@   trusts err == nil ==> result0.ProposalID == proposalID
+//@   trusts err != nil ==> result0 == nil
+//@   claims err == nil && !old(exhausted(ps.state.cache)) && vHas(ps.state)[propRawKey(ps, proposalID)] ==> *result0 == deser(vVal(ps.state)[propRawKey(ps, proposalID)], "Proposal")   // C14.proposal-raw-record
 
 //@ func (*ProposalStore).WithPrefixType
 //@   modifies ps.prefix
@@ -57,14 +64,20 @@ package governance
 //@   ensures prefixType == ProposalStateFinalizeFailed ==> ps.prefix == ps.prefixFinalizeFailed
 
 // Set keys the record on proposal.ProposalID under the current prefix
-//@ assume func (*ProposalStore).Set
+//@ func (*ProposalStore).Set
+//@   assumes ps != nil && ps.state != nil && wfState(ps.state)
 //@   requires ps != nil && proposal != nil
 //@   modifies pHas(ps)[str(ps.prefix)], pRec(ps)[str(ps.prefix)], pGoal(ps)[str(ps.prefix)], vHas(ps.state), vVal(ps.state), gasOut(ps.state)
-//@   ensures err == nil ==> pHas(ps)[str(ps.prefix)] == old(pHas(ps))[str(ps.prefix)][proposal.ProposalID := true]
-//@   ensures err == nil ==> pRec(ps)[str(ps.prefix)] == old(pRec(ps))[str(ps.prefix)][proposal.ProposalID := *proposal]
-//@   ensures err == nil ==> pGoal(ps)[str(ps.prefix)] == old(pGoal(ps))[str(ps.prefix)][proposal.ProposalID := big(proposal.FundingGoal)]
-//@   ensures err != nil ==> pHas(ps) == old(pHas(ps)) && pRec(ps) == old(pRec(ps)) && pGoal(ps) == old(pGoal(ps))
-//@   ensures old(gasOut(ps.state)) ==> gasOut(ps.state)
+//@   trustframe
+//@   trusts err == nil ==> pHas(ps)[str(ps.prefix)] == old(pHas(ps))[str(ps.prefix)][proposal.ProposalID := true]
+//@   trusts err == nil ==> pRec(ps)[str(ps.prefix)] == old(pRec(ps))[str(ps.prefix)][proposal.ProposalID := *proposal]
+//@   trusts err == nil ==> pGoal(ps)[str(ps.prefix)] == old(pGoal(ps))[str(ps.prefix)][proposal.ProposalID := big(proposal.FundingGoal)]
+//@   trusts err != nil ==> pHas(ps) == old(pHas(ps)) && pRec(ps) == old(pRec(ps)) && pGoal(ps) == old(pGoal(ps))
+//@   trusts old(gasOut(ps.state)) ==> gasOut(ps.state)
+//@   assumes !tomb(ser(*proposal, "Proposal"))                                                            // A-NOTOMB a serialised record is never the deletion marker
+//@   claims err == nil ==> vHas(ps.state)[propRawKey(ps, proposal.ProposalID)] && vVal(ps.state)[propRawKey(ps, proposal.ProposalID)] == ser(old(*proposal), "Proposal")   // C14.proposal-raw-record
+//@   claims err == nil ==> forall k string :: k != propRawKey(ps, proposal.ProposalID) ==> vHas(ps.state)[k] == old(vHas(ps.state))[k] && vVal(ps.state)[k] == old(vVal(ps.state))[k]   // C14.proposal-raw-record
+//@   claims err != nil ==> vHas(ps.state) == old(vHas(ps.state)) && vVal(ps.state) == old(vVal(ps.state))   // C14.proposal-raw-record
 
 // gasOut(state): the gas limit of the State's gas store is reached (writes and deletes fail); it never resets within a
 // transaction, so a Delete that failed keeps failing
@@ -143,26 +156,45 @@ package governance
 
 // get/set/delete: the store's typed view of its State prefix. Assumed (rests on C09's State contracts and on T-SER
 // round-tripping of Amount); everything above them is proved against these three.
-//@ assume func (*ProposalFundStore).get
+// get/set/delete are VERIFIED against the State (`claims`: checked on the body, not handed to callers): the amount of key k
+// lives under pf.prefix ++ k; a successful set leaves exactly the serialised amount there and writes nothing else, a failed
+// one writes nothing; get decodes what is visible under that key (0 for an absent / empty record). TRUSTED per clause: the
+// identification of the ghost ledger fund(pf)[k] / fundBad(pf)[k] with that raw record.
+//@ ghost func fundRawKey(pf *ProposalFundStore, k bytes) string = str(pf.prefix) + str(k)
+//@ func (*ProposalFundStore).get
 //@   requires pf != nil
+//@   assumes pf.State != nil && wfState(pf.State)
 //@   modifies nothing
-//@   ensures (err != nil) == fundBad(pf)[str(key)]
+//@   trustframe
+//@   trusts (err != nil) == fundBad(pf)[str(key)]
 // amt is nil only when State.Get fails, which it never does (its last resort ChainState.Get has err == nil)
 //@   ensures amt != nil && fresh(amt)
-//@   ensures err == nil ==> big(amt) == fund(pf)[str(key)]
+//@   trusts err == nil ==> big(amt) == fund(pf)[str(key)]
+//@   claims err == nil && !old(exhausted(pf.State.cache)) && vHas(pf.State)[fundRawKey(pf, key)] && len(vVal(pf.State)[fundRawKey(pf, key)]) != 0 ==> big(amt) == deser(vVal(pf.State)[fundRawKey(pf, key)], "balance.Amount")   // C14.fund-raw-record
+//@   claims !old(exhausted(pf.State.cache)) && vHas(pf.State)[fundRawKey(pf, key)] && len(vVal(pf.State)[fundRawKey(pf, key)]) == 0 ==> err == nil && big(amt) == 0   // C14.fund-raw-record
 
-//@ assume func (*ProposalFundStore).set
+//@ func (*ProposalFundStore).set
 //@   requires pf != nil
+//@   assumes pf.State != nil && wfState(pf.State)
+//@   assumes !tomb(ser(amt, "balance.Amount"))                                                                // A-NOTOMB a serialised record is never the deletion marker
 //@   modifies fund(pf)[str(key)], fundBad(pf)[str(key)], vHas(pf.State), vVal(pf.State)
-//@   ensures err == nil ==> fund(pf)[str(key)] == amt && !fundBad(pf)[str(key)]
-//@   ensures err != nil ==> fund(pf)[str(key)] == old(fund(pf))[str(key)] && fundBad(pf)[str(key)] == old(fundBad(pf))[str(key)]
+//@   trustframe
+//@   trusts err == nil ==> fund(pf)[str(key)] == amt && !fundBad(pf)[str(key)]
+//@   trusts err != nil ==> fund(pf)[str(key)] == old(fund(pf))[str(key)] && fundBad(pf)[str(key)] == old(fundBad(pf))[str(key)]
+//@   claims err == nil ==> vHas(pf.State)[fundRawKey(pf, key)] && vVal(pf.State)[fundRawKey(pf, key)] == ser(amt, "balance.Amount")   // C14.fund-raw-record
+//@   claims err == nil ==> forall k string :: k != fundRawKey(pf, key) ==> vHas(pf.State)[k] == old(vHas(pf.State))[k] && vVal(pf.State)[k] == old(vVal(pf.State))[k]   // C14.fund-raw-record
+//@   claims err != nil ==> vHas(pf.State) == old(vHas(pf.State)) && vVal(pf.State) == old(vVal(pf.State))   // C14.fund-raw-record
 
-//@ assume func (*ProposalFundStore).delete
+//@ func (*ProposalFundStore).delete
 //@   requires pf != nil
+//@   assumes pf.State != nil && wfState(pf.State)
 //@   modifies fund(pf)[str(key)], fundBad(pf)[str(key)], vHas(pf.State), vVal(pf.State)
-//@   ensures result0 && err == nil ==> fund(pf)[str(key)] == 0
-//@   ensures !(result0 && err == nil) ==> fund(pf)[str(key)] == old(fund(pf))[str(key)] || fund(pf)[str(key)] == 0
+//@   trustframe
+//@   trusts result0 && err == nil ==> fund(pf)[str(key)] == 0
+//@   trusts !(result0 && err == nil) ==> fund(pf)[str(key)] == old(fund(pf))[str(key)] || fund(pf)[str(key)] == 0
 //@   ensures err != nil ==> !result0
+//@   claims err == nil && !old(exhausted(pf.State.cache)) ==> !vHas(pf.State)[fundRawKey(pf, key)]           // C14.fund-raw-record
+//@   claims err == nil && !old(exhausted(pf.State.cache)) ==> forall k string :: k != fundRawKey(pf, key) ==> vHas(pf.State)[k] == old(vHas(pf.State))[k]   // C14.fund-raw-record
 
 //@ func (*ProposalFundStore).GetCurrentFundsForProposal
 //@   requires pf != nil
